@@ -154,3 +154,28 @@ def replay(ops, profile='dev'):
     if p.returncode != 0:
         raise Inconclusive('replay binary failed: ' + p.stderr[-400:])
     return json.loads(p.stdout)
+
+
+def find_fns(prog, method, inpath=None, ret=None, arg0=None):
+    """functions named ...::method (including #k duplicates), optionally filtered by a path substring / return / first-arg type text"""
+    import re as _re
+    out = []
+    for k, f in prog.fns.items():
+        if not _re.search(r'::' + _re.escape(method) + r'(#\d+)?$', k):
+            continue
+        if inpath and inpath not in k:
+            continue
+        if ret and ret not in f.ret:
+            continue
+        if arg0 and (not f.args or arg0 not in f.args[0][1]):
+            continue
+        out.append(k)
+    return out
+
+
+def find_fn(prog, method, **kw):
+    c = find_fns(prog, method, **kw)
+    if len(c) != 1:
+        from vlib.common import Inconclusive
+        raise Inconclusive(f'harness: expected exactly one function {method} {kw}, found {len(c)}: {c[:4]}')
+    return c[0]
